@@ -64,6 +64,20 @@ func finish(s Scn, frames [2]int) Scn {
 	if s.Refuse != 0 && s.Mode == "" {
 		s.Mode = "reject"
 	}
+	if s.HookRefuse != "" {
+		// the server stays reachable; the dial hook refuses by policy. Optionally the first attempts of
+		// every round find the port closed (Mode down, Refuse = number of such attempts <= budget)
+		s.Script, s.Hook = "", "plain"
+		if s.Budget < 1 {
+			s.Budget = 1
+		}
+		if s.Mode != "down" || s.Refuse <= 0 || s.Refuse > s.Budget {
+			s.Refuse, s.Mode = 0, ""
+		}
+		if s.Base != "awaiting" {
+			s.Base = "idle"
+		}
+	}
 	if s.Timed {
 		// the server is away for longer than DialTimeout and back within the budget; refusals are
 		// visible to the dialer (handshake hook) or the port is really closed
@@ -136,7 +150,20 @@ func finish(s Scn, frames [2]int) Scn {
 	default:
 		s.Detector = "reader"
 	}
+	hookEnds := false
+	if s.HookRefuse != "" {
+		j, down := 0, 0
+		if s.Mode == "down" {
+			down = s.Refuse
+		}
+		for l := 0; l < s.Losses && !hookEnds; l++ {
+			ok, _ := simulateRound(s, down, &j)
+			hookEnds = !ok
+		}
+	}
 	switch {
+	case hookEnds:
+		s.Class = "exhausted"
 	case s.Losses > 1:
 		s.Class = "repeated"
 	case s.Budget != 0 && s.Refuse < 0:
@@ -249,6 +276,21 @@ func scenarios(tier string, seed int64) []Scn {
 			add(Scn{Budget: []int{1, 3, -1}[i], Base: "awaiting", NCalls: 2, Script: scripts[r.Intn(len(scripts))], Writer: r.Pick("call", "push"),
 				DelaySeed: int64(r.Intn(1 << 30)), DelayP: 300, UserID: true})
 		}
+		// the server is reachable but the dial hook refuses redial attempts: survive while an attempt
+		// within the round's budget is accepted, end exactly when the budget is exhausted
+		add(Scn{Budget: 1, HookRefuse: "all", Base: "idle", UserID: true})
+		add(Scn{Budget: 2, HookRefuse: "all", Base: "awaiting", NCalls: 2, Writer: "push", RST: true})
+		add(Scn{Budget: 3, HookRefuse: "all", Base: "idle", Refuse: 3, Mode: "down"}) // only the last attempt of the round reaches the hook
+		add(Scn{Budget: 10, HookRefuse: "all", Base: "awaiting", NCalls: 1, UserID: true})
+		add(Scn{Budget: 2, HookRefuse: "all", Base: "idle", Refuse: 2, Mode: "down", Writer: "push"})
+		add(Scn{Budget: 3, HookRefuse: "after-k", HookK: 2, Losses: 3, Base: "idle", UserID: true})  // two reconnects, then exhausted
+		add(Scn{Budget: 1, HookRefuse: "after-k", HookK: 1, Losses: 2, Base: "awaiting", NCalls: 1}) // one reconnect, then exhausted
+		add(Scn{Budget: 10, HookRefuse: "after-k", HookK: 3, Losses: 4, Base: "idle", RST: true})
+		add(Scn{Budget: 3, HookRefuse: "first-k", HookK: 3, Losses: 2, Base: "idle", UserID: true}) // accepted exactly on the last retry
+		add(Scn{Budget: 2, HookRefuse: "first-k", HookK: 3, Base: "awaiting", NCalls: 2})           // one refusal too many: exhausted
+		add(Scn{Budget: 10, HookRefuse: "first-k", HookK: 10, Losses: 2, Base: "idle"})
+		add(Scn{Budget: 1, HookRefuse: "alternating", Losses: 3, Base: "idle", UserID: true})
+		add(Scn{Budget: 2, HookRefuse: "alternating", Losses: 2, Base: "awaiting", NCalls: 1, RST: true})
 		// a DialTimeout is configured: it bounds one attempt, not the redial round
 		add(Scn{Budget: 3, Base: "awaiting", NCalls: 1, Refuse: 2, Mode: "reject", Hook: "handshake", DialTimeoutMs: 150, UserID: true})
 		add(Scn{Budget: 1, Base: "idle", Refuse: 1, Mode: "down", DialTimeoutMs: 100})
@@ -360,6 +402,19 @@ func scenarios(tier string, seed int64) []Scn {
 			addb(Scn{Budget: b, Base: "idle", Losses: l, UserID: true})
 			addb(Scn{Budget: b, Base: "awaiting", NCalls: 2, Losses: l, Refuse: 1, Mode: "reject", Hook: "handshake", RST: true})
 			addb(Scn{Budget: b, Base: "mid-write", K: 7, Losses: l, Hook: "handshake"})
+		}
+	}
+	// the dial hook refuses redial attempts while the server is reachable
+	for _, n := range []int{1, 2, 3, 10} {
+		for bi, bs := range []string{"idle", "awaiting"} {
+			addb(Scn{Budget: n, HookRefuse: "all", Base: bs, NCalls: 2, Writer: []string{"call", "push"}[bi], UserID: bi == 0})
+			addb(Scn{Budget: n, HookRefuse: "all", Base: bs, NCalls: 1, Refuse: n, Mode: "down", RST: bi == 1})
+			addb(Scn{Budget: n, HookRefuse: "all", Base: bs, NCalls: 1, Refuse: (n + 1) / 2, Mode: "down", Writer: "push"})
+			for _, k := range []int{1, n, n + 1} {
+				addb(Scn{Budget: n, HookRefuse: "after-k", HookK: k, Losses: k + 1, Base: bs, NCalls: 1, UserID: k%2 == 0})
+				addb(Scn{Budget: n, HookRefuse: "first-k", HookK: k, Losses: 2, Base: bs, NCalls: 2, RST: k%2 == 1})
+			}
+			addb(Scn{Budget: n, HookRefuse: "alternating", Losses: 3, Base: bs, NCalls: 1, UserID: true})
 		}
 	}
 	// a DialTimeout is configured (bounds one attempt, not the round): ordinary outages, and outages that
